@@ -14,6 +14,7 @@ import re
 from ..core import AnalysisError, ClassInfo, FuncInfo, call_name, dotted, func_param_defaults, is_self_attr, walk_local
 from .. import coh
 from .. import fields as F
+from . import shared
 
 RESOLVERS = [
     ('cirq-core/cirq/json_resolver_cache.py', 'cirq-core/cirq/protocols/json_test_data', 150),
@@ -67,6 +68,8 @@ def json_namespace(repo, ci):
 
 def run(ctx):
     repo = ctx.repo
+    shared.module_state_rule(ctx, 'C11.j', ['cirq-core/cirq/protocols/', 'cirq-core/cirq/value/', 'cirq-core/cirq/study/', 'cirq-core/cirq/_compat.py'], floor=3)
+    ctx.decided.append('C11.j JSON/equality machinery keeps no state between calls apart from the tabled import-time registries')
     ctx.decided += [
         'C11.a every resolver key maps to an existing definition and is the class name (with namespace)',
         'C11.b JSON keys vs constructor: keys accepted, required parameters written, state-backing parameters written',
